@@ -105,12 +105,16 @@ fn nearest(inp: u32, out: u32, fm: u32, tm: u32) -> bool {
     d * 2 <= fm as i64
 }
 
-/// Reference luma: the library's own RGB->Gray8 result is held to BT.601 within a tolerance.
-fn bt601<S: CI>(c: S) -> f64 {
+/// the exactly weighted luma of an RGB colour on the 0..=255 scale under four readings:
+/// [anchored weights, channels rounded to 8 bits], [anchored, exact], [BT.601, rounded], [BT.601, exact]
+fn luma_readings<S: CI>(c: S) -> [f64; 4] {
     let ch = c.ch();
     let m = S::max();
-    let f = |k: usize| ch[k] as f64 * 255.0 / m[k] as f64;
-    0.299 * f(0) + 0.587 * f(1) + 0.114 * f(2)
+    let exact = |k: usize| ch[k] as f64 * 255.0 / m[k] as f64;
+    let rounded = |k: usize| ((ch[k] as u64 * 255 * 2 + m[k] as u64) / (2 * m[k] as u64)) as f64;
+    let anchored = |f: &dyn Fn(usize) -> f64| (77.0 * f(0) + 150.0 * f(1) + 29.0 * f(2)) / 256.0;
+    let bt = |f: &dyn Fn(usize) -> f64| 0.299 * f(0) + 0.587 * f(1) + 0.114 * f(2);
+    [anchored(&rounded), anchored(&exact), bt(&rounded), bt(&exact)]
 }
 
 fn check_value<S, T>(ctx: &mut Ctx, c: S, thorough_neighbours: bool)
@@ -177,9 +181,15 @@ where
             if !nearest(l8, tc[0], 255, tm[0]) {
                 ctx.violation(format!("{}|gray-not-nearest-to-luma8", pair()), case, || format!("luma8 {} -> {} of {}", l8, tc[0], tm[0]));
             }
-            let ideal = bt601(c);
-            if (l8 as f64 - ideal).abs() > 2.0 {
-                ctx.violation(format!("{}|luma-off-bt601", pair()), case, || format!("luma8 {} vs BT.601 {:.3}", l8, ideal));
+            // the 8-bit luma itself is the value nearest to the exactly weighted sum - under the
+            // property's anchored weights (77, 150, 29)/256 or under the exact BT.601 weights, with
+            // the source channels scaled to 8 bits exactly or rounded first (the library's path):
+            // a result that is nearest under none of these four readings is not "nearest"
+            let readings = luma_readings(c);
+            if !readings.iter().any(|l| (l8 as f64 - l).abs() <= 0.5 + 1e-9) {
+                ctx.violation(format!("{}|luma8-not-nearest-to-weighted-sum", pair()), case, || {
+                    format!("luma8 {} ; weighted sums: anchored weights/rounded channels {:.4}, anchored/exact channels {:.4}, BT.601/rounded {:.4}, BT.601/exact {:.4}", l8, readings[0], readings[1], readings[2], readings[3])
+                });
             }
             // gray input (r=g=b at full scale) is reproduced
             // (only where the conversion is a single rounding step: 8-bit source channels or 8-bit gray target)
@@ -269,8 +279,19 @@ where
         });
     } else {
         // quick tier, 24-bit sources: per-channel exhaustive with neighbours + random
-        run.generate(gen, 3 * 256 + 256, false, 0.2, |ctx, idx, rng| {
-            if idx < 768 {
+        run.generate(gen, 3 * 256 + 256 + 256, false, 0.2, |ctx, idx, rng| {
+            if idx >= 1024 {
+                // every nearly neutral colour: g = idx - 1024, r and b within 3 steps of g
+                let g = (idx - 1024) as i64;
+                for dr in -3i64..=3 {
+                    for db in -3i64..=3 {
+                        let ch = [(g + dr).clamp(0, 255) as u32, g as u32, (g + db).clamp(0, 255) as u32];
+                        check_value::<S, T>(ctx, S::make(ch), true);
+                        ctx.nontrivial(mix(salt, ((ch[0] as u64) << 16) | ((ch[1] as u64) << 8) | ch[2] as u64));
+                    }
+                }
+                ctx.count("conversions_near_neutral", 49);
+            } else if idx < 768 {
                 let (k, v) = ((idx / 256) as usize, (idx % 256) as u32);
                 for other in [0u32, 255, 128, 127, 1, 254, 85, 170] {
                     let mut ch = [other; 3];
@@ -315,10 +336,10 @@ fn main() {
     main_with("c13", "exploration", |run| {
         run.set_rule(
             "Every ordered pair of the 14 built-in colour types (182 conversions) x source values: all values for sources up to 18 used bits (always) and for the two 24-bit sources in the thorough tier; \
-             quick tier for 24-bit sources: each channel 0..=255 against 8 settings of the other channels, plus 5e5 random values per pair. Non-trivial = source neither black nor white; distinct = distinct (pair, source value).",
+             quick tier for 24-bit sources: each channel 0..=255 against 8 settings of the other channels, every nearly neutral colour (r and b within 3 steps of g), colours on and next to the luma midpoint, plus random values. Non-trivial = source neither black nor white; distinct = distinct (pair, source value).",
         );
         run.assume("nearest-value oracle: |out*FROM_MAX - in*TO_MAX|*2 <= FROM_MAX per channel (exact integers)");
-        run.assume("RGB->Gray/Binary: luma is the library's own RGB->Gray8 result, held to BT.601 within 2/255 (1.5 for the integer weights + 0.5 channel quantisation), monotone, gray-reproducing");
+        run.assume("RGB->Gray/Binary: the 8-bit luma (the library's RGB->Gray8 result) must be the value nearest to the exactly weighted channel sum under at least one of four readings (the property's anchored weights 77/150/29 over 256 or exact BT.601 weights; source channels scaled to 8 bits exactly or rounded first); lower gray depths and the binary threshold are derived from that luma; monotone, gray-reproducing");
         all_pairs!(run; Rgb332, Rgb444, Rgb555, Bgr555, Rgb565, Bgr565, Rgb666, Bgr666, Rgb888, Bgr888, Gray2, Gray4, Gray8, BinaryColor);
     })
 }
